@@ -5,7 +5,9 @@ A program is a tree of nodes; a node is a dict
                            running concurrency control TASK + reroute (n_c0: one execution RUNNING at a time)
    "mr": 0|1|2,            max_retries of the task that runs the node
    "sc": ["ret", v] | ["slow", seconds, v] | ["retry_until", k, v] | ["always_retry"] | ["fail", msg],
-   "kids": [nodes], "call": "single"|"group"|"group_first"|"group_common" (identical members, common_args)}
+   "kids": [nodes], "call": "single"|"group"|"group_first"|"group_common" (identical members, common_args)
+                          |"single_twice"|"group_twice" (the result / the results are read twice from one object)}
+   script ["none"]: a side-effect-only body, returns None
 Every node body counts its executions in STATE["exec"][path] (the harness reads it),
 calls its children (singly through .result / the direct wrapper, or as one parallelize
 group whose results are combined with an order-insensitive sum), then follows its script.
@@ -53,7 +55,16 @@ def _body(spec: dict, path: str) -> Any:
     if kids:
         if spec.get("call", "single") == "single":
             for i, kid in enumerate(kids):
-                total += _call_child(kid, f"{path}.{i}")
+                total += _call_child(kid, f"{path}.{i}") or 0
+        elif spec.get("call") == "single_twice":
+            # waits for the sub-task, later reads the result again from the same invocation object
+            for i, kid in enumerate(kids):
+                inv = STATE["tasks"][(kid["fl"], kid["mr"])](kid, f"{path}.{i}")
+                first = inv.result
+                again = inv.result
+                if first != again:
+                    raise ProgError("second read differs", path)
+                total += first or 0
         else:
             k0 = kids[0]
             t = STATE["tasks"][(k0["fl"] if k0["fl"] in ("c", "r") else "p", k0["mr"])]
@@ -67,9 +78,17 @@ def _body(spec: dict, path: str) -> Any:
                 # modes: the value is not used); the other members were submitted all the same
                 for _ in grp.results:
                     break
+            elif spec.get("call") == "group_twice":
+                first = list(grp.results)
+                again = list(grp.results)
+                if sorted(map(repr, first)) != sorted(map(repr, again)):
+                    raise ProgError("second pass differs", path)
+                total += sum(x or 0 for x in first)
             else:
-                total += sum(grp.results)
+                total += sum(x or 0 for x in grp.results)
     sc = spec["sc"]
+    if sc[0] == "none":
+        return None
     if sc[0] == "ret":
         return sc[1] + total
     if sc[0] == "slow":
